@@ -1037,7 +1037,11 @@ def wmom(
     if inputmean is None:
         wmean = (weights * arr).sum(axis=0) / wtot
     else:
-        wmean = float(inputmean)
+        if np.ndim(inputmean) == 0:
+            wmean = float(inputmean)
+        else:
+            # one value for each of the ndim columns
+            wmean = np.array(inputmean, dtype=np.float64)
 
     # how should error be calculated?
     if calcerr:
